@@ -26,6 +26,7 @@ type gen struct {
 	short    bool
 	feat     map[string]bool
 	maxInst  int
+	prev     []Macro // earlier requests (without their schedules)
 }
 
 var (
@@ -63,11 +64,11 @@ func (g *gen) newInst(name string) (int, []Macro) {
 	g.cs.Insts = append(g.cs.Insts, InstDef{ID: id, Name: rig.Hex(name)})
 	g.eps[id] = map[string]bool{}
 	var ops []Macro
-	n := []int{0, 1, 1, 1, 1, 2, 2, 3}[g.r.Intn(8)]
+	n := []int{0, 1, 1, 1, 1, 1, 2, 2, 2, 3}[g.r.Intn(10)]
 	for j := 0; j < n; j++ {
 		name := fmt.Sprintf("https://%d.%d:6443", id, j)
 		g.eps[id][name] = true
-		ops = append(ops, g.ev(Ev{E: "ep", Inst: id, Name: rig.Hex(name), Healthy: g.r.Intn(100) < 88, Disabled: g.r.Intn(100) < 8}))
+		ops = append(ops, g.ev(Ev{E: "ep", Inst: id, Name: rig.Hex(name), Healthy: g.r.Intn(100) < 94, Disabled: g.r.Intn(100) < 4}))
 	}
 	return id, ops
 }
@@ -80,13 +81,13 @@ func (g *gen) add(key string, inst int) Macro {
 func (g *gen) host() string {
 	x := g.r.Intn(100)
 	switch {
-	case x < 38:
+	case x < 42:
 		return aliases[0]
-	case x < 48:
+	case x < 50:
 		return aliases[1]
-	case x < 86:
-		return g.pick(clusterNames)
-	case x < 93:
+	case x < 88:
+		return g.pick(clusterNames[:2+g.r.Intn(2)])
+	case x < 96:
 		return g.pick([]string{"X.Example", "A", "B", "x.EXAMPLE"})
 	default:
 		return g.pick([]string{"nope.example", "", "a.example"})
@@ -98,7 +99,7 @@ func (g *gen) managerEvent(depth int) []Macro {
 	live := g.liveInsts()
 	x := g.r.Intn(100)
 	switch {
-	case x < 34 && len(live) > 0: // alias move (both clusters stay alive): the pristine tree's failing history
+	case x < 46 && len(live) > 0: // alias move (both clusters stay alive): the pristine tree's failing history
 		g.feat["move"] = true
 		al := g.pick(aliases)
 		to := live[g.r.Intn(len(live))]
@@ -108,11 +109,11 @@ func (g *gen) managerEvent(depth int) []Macro {
 			ops = append(ops, g.ev(Ev{E: "del", Key: rig.Hex(al)}))
 		}
 		return append(ops, g.add(al, to))
-	case x < 42: // alias removed
+	case x < 50: // alias removed
 		al := g.pick(aliases)
 		delete(g.keys, al)
 		return []Macro{g.ev(Ev{E: "del", Key: rig.Hex(al)})}
-	case x < 62: // delete and stop a cluster (all its server names, as DeleteForServerNames does), often re-created
+	case x < 66: // delete and stop a cluster (all its server names, as DeleteForServerNames does), often re-created
 		name := g.pick(clusterNames)
 		inst, ok := g.keys[name]
 		if !ok {
@@ -135,7 +136,7 @@ func (g *gen) managerEvent(depth int) []Macro {
 		}
 		g.stopped[inst] = true
 		ops = append(ops, g.ev(Ev{E: "dropStopped"}))
-		if g.r.Intn(100) < 75 && g.nextInst < g.maxInst {
+		if g.r.Intn(100) < 88 && g.nextInst < g.maxInst {
 			id, more := g.newInst(name)
 			ops = append(ops, more...)
 			ops = append(ops, g.add(name, id))
@@ -144,18 +145,18 @@ func (g *gen) managerEvent(depth int) []Macro {
 			}
 		}
 		return ops
-	case x < 68: // delete without stop
+	case x < 69: // delete without stop
 		name := g.pick(clusterNames)
 		delete(g.keys, name)
 		return []Macro{g.ev(Ev{E: "del", Key: rig.Hex(name)})}
-	case x < 71 && depth == 0: // DeleteAll
+	case x < 70 && depth == 0: // DeleteAll
 		g.feat["delAll"] = true
 		for _, k := range g.mappedKeys() {
 			g.stopped[g.keys[k]] = true
 			delete(g.keys, k)
 		}
 		return []Macro{g.ev(Ev{E: "delAll"}), g.ev(Ev{E: "dropStopped"})}
-	case x < 76 && len(live) > 0: // cluster stopped behind the manager's back
+	case x < 73 && len(live) > 0: // cluster stopped behind the manager's back
 		inst := live[g.r.Intn(len(live))]
 		g.stopped[inst] = true
 		g.feat["linger"] = true
@@ -181,18 +182,23 @@ func (g *gen) managerEvent(depth int) []Macro {
 			delete(g.eps[inst], name)
 			return []Macro{g.ev(Ev{E: "rmEp", Inst: inst, Name: rig.Hex(name)})}
 		}
-		return []Macro{g.ev(Ev{E: "ep", Inst: inst, Name: rig.Hex(name), Healthy: g.r.Intn(2) == 0, Disabled: g.r.Intn(4) == 0})}
+		return []Macro{g.ev(Ev{E: "ep", Inst: inst, Name: rig.Hex(name), Healthy: g.r.Intn(3) > 0, Disabled: g.r.Intn(5) == 0})}
 	}
 }
 
 // mid: what happens while a request is between two of its steps
-func (g *gen) mid(depth int, enclosing map[string]bool) []Macro {
+func (g *gen) mid(depth int, enclosing map[string]bool, own string) []Macro {
 	var ops []Macro
 	n := 1 + g.r.Intn(2)
 	for i := 0; i < n; i++ {
 		x := g.r.Intn(100)
 		switch {
-		case x < 55:
+		case x < 35 && len(g.liveInsts()) > 0:
+			// the request's own host changes hands while the request is being processed
+			g.feat["own-host-moves"] = true
+			live := g.liveInsts()
+			ops = append(ops, g.add(own, live[g.r.Intn(len(live))]))
+		case x < 60:
 			ops = append(ops, g.managerEvent(depth+1)...)
 		case x < 62 && g.short:
 			g.feat["sleep"] = true
@@ -208,6 +214,23 @@ func (g *gen) mid(depth int, enclosing map[string]bool) []Macro {
 // request: one token or authorization request (plus the clean-up barrier when a stopped cluster may be involved)
 func (g *gen) request(depth int, enclosing map[string]bool) []Macro {
 	var m Macro
+	if len(g.prev) > 0 && g.r.Intn(100) < 30 {
+		// the same request again (cache hits, and the same credentials after the host changed hands)
+		m = g.prev[g.r.Intn(len(g.prev))]
+		if m.Op == "tok" && enclosing[rig.UnHex(m.Host)+"\x00"+rig.UnHex(m.Tok)] {
+			return nil
+		}
+		ops := []Macro{m}
+		if len(g.stopped) > 0 {
+			ops = append(ops, g.ev(Ev{E: "dropStopped"}))
+		}
+		return ops
+	}
+	defer func() {
+		if m.Op != "" {
+			g.prev = append(g.prev, Macro{Op: m.Op, Host: m.Host, Tok: m.Tok, Attrs: m.Attrs})
+		}
+	}()
 	if g.r.Intn(2) == 0 {
 		host, tok := g.host(), g.pick(g.toks)
 		for tries := 0; enclosing[host+"\x00"+tok] && tries < 20; tries++ {
@@ -224,17 +247,18 @@ func (g *gen) request(depth int, enclosing map[string]bool) []Macro {
 			}
 			g.feat["mid"] = true
 			if g.r.Intn(2) == 0 {
-				m.Mid1 = g.mid(depth, enc)
+				m.Mid1 = g.mid(depth, enc, host)
 			}
 			if g.r.Intn(2) == 0 || len(m.Mid1) == 0 {
-				m.Mid2 = g.mid(depth, enc)
+				m.Mid2 = g.mid(depth, enc, host)
 			}
 		}
 	} else {
-		m = Macro{Op: "sar", Host: rig.Hex(g.host()), Attrs: g.r.Intn(len(g.cs.Attrs))}
+		host := g.host()
+		m = Macro{Op: "sar", Host: rig.Hex(host), Attrs: g.r.Intn(len(g.cs.Attrs))}
 		if g.r.Intn(100) < 14 {
 			g.feat["mid"] = true
-			m.Mid = g.mid(depth, enclosing)
+			m.Mid = g.mid(depth, enclosing, host)
 		}
 	}
 	ops := []Macro{m}
@@ -380,9 +404,9 @@ func genCase(r *rand.Rand, profile string) (*Case, map[string]bool) {
 	for i := 0; i < nOps; i++ {
 		x := r.Intn(100)
 		switch {
-		case x < 68:
+		case x < 74:
 			cs.Ops = append(cs.Ops, g.request(0, map[string]bool{})...)
-		case x < 74 && g.short:
+		case x < 79 && g.short:
 			g.feat["sleep"] = true
 			cs.Ops = append(cs.Ops, g.ev(Ev{E: "tick", Dt: ShortTicks + 1}))
 		default:
